@@ -29,8 +29,10 @@ $(B)/asan/vfs_driver.o: $(VERIF)engine/vfs_driver.c $(VERIF)engine/vfs_driver.h
 	$(CC) -std=gnu99 -O1 -g $(SAN) -I/usr/include -c $< -o $@
 
 .PHONY: setup all clean
-setup: $(ASAN_LIBOBJS)
-	@echo setup done
+HARNESSES := $(sort $(patsubst $(VERIF)checks/%.cpp,%,$(filter-out %tsan.cpp,$(wildcard $(VERIF)checks/C*.cpp))))
+setup: $(addprefix harness-,$(HARNESSES))
+	@echo setup done: $(HARNESSES)
+all: setup
 
 $(B)/asan/core_%.o: $(REPO)/src/core/%.cpp
 	@mkdir -p $(dir $@)
